@@ -16,11 +16,15 @@ from .values import (UNINIT, UNIT, VAdt, VArray, VBool, VClosure, VFloat, VFn, V
                      VTuple, Val)
 
 UNROLL = 14          # loop iterations explored path-wise before switching a loop to join mode
+HEAD_VISITS = 200    # ... or path states reaching one loop head within one activation (today's tree: at most 27)
 MAX_LOOP_PASSES = 12
 WIDEN_AFTER = 2
 THRESHOLDS = [-1, 0, 1, 2, 4, 9, 10, 11, 12, 31, 32, 36, 59, 60, 99, 255, 256, 366, 9999, 65535,
               (1 << 31) - 1, (1 << 32) - 1, (1 << 63) - 1, (1 << 64) - 1]
 NEG_THRESHOLDS = [1, 0, -1, -9999, -(1 << 31), -(1 << 63)]
+
+
+FN_TRAIT_CALLS = ('std::ops::FnOnce::call_once', 'std::ops::FnMut::call_mut', 'std::ops::Fn::call')
 
 
 class NeedJoin(Exception):
@@ -91,6 +95,7 @@ class Interp:
         self.models = models
         self.obls = {}
         self.unmodelled = {}
+        self.ext_fallback = {}
         self.loop_mode = {}
         self.cfg_cache = {}
         self.steps = 0
@@ -1330,7 +1335,11 @@ class Interp:
         """analyse callee inline; returns list of (state, return value)"""
         for _, k in st.stack:
             if k == key:
-                raise AnalysisIncomplete(f"recursion through {key}")
+                # a recursive call: cut with an arbitrary value of the return type (no invariant assumed); termination is
+                # an assumption listed in the evidence
+                self.unmodelled['recursion:' + key] = self.unmodelled.get('recursion:' + key, 0) + 1
+                rty = self.facts.body(key)['locals'][0]['ty']
+                return [(st, self.top(st, rty, 'rec', assume_inv=False))]
         if len(st.stack) > 40:
             raise AnalysisIncomplete("call depth")
         ov = self.spec.call_override(self, st, key, args)
@@ -1373,6 +1382,42 @@ class Interp:
         if st.stack and len(out) > self.spec.merge_limit(key, st):
             out = self.merge_exits(out)
         return out
+
+    def call_ext_body(self, st: State, key: str, args: list):
+        """analyse the dumped body of a library function on a copy of the state; None if it uses something the
+        interpreter does not support (the caller then treats the call as an opaque total function, as before)"""
+        saved, self.obls = self.obls, {}
+        n_ev = len(self.events)
+        unm = dict(self.unmodelled)
+        ok = False
+        try:
+            res = self.call_local(st.copy(), key, list(args))
+            ok = True
+            return res
+        except NeedJoin:
+            ok = True       # a loop of an enclosing function restarts in join mode: keep what was recorded
+            raise
+        except Infeasible:
+            ok = True
+            raise
+        except (AnalysisIncomplete, KeyError, TypeError, AttributeError, IndexError, ValueError, AssertionError) as e:
+            self.ext_fallback[key] = f"{type(e).__name__}: {e}"[:200]
+            del self.events[n_ev:]
+            self.unmodelled = unm
+            return None
+        finally:
+            trial, self.obls = self.obls, saved
+            if ok:
+                for k, o in trial.items():
+                    cur = self.obls.get(k)
+                    if cur is None:
+                        self.obls[k] = o
+                    else:
+                        cur.visits += o.visits
+                        cur.fails += o.fails
+                        cur.roots |= o.roots
+                        if cur.sample is None:
+                            cur.sample = o.sample
 
     def shape(self, v):
         if isinstance(v, VAdt):
@@ -1426,6 +1471,7 @@ class Interp:
         succ, loops = self.cfg(body)
         rets, backs, exits = [], [], []
         work = list(entries)
+        hv = {}
         while work:
             st, bb, is_entry = work.pop()
             if loop is not None and not is_entry:
@@ -1444,7 +1490,8 @@ class Interp:
                     continue
                 ck = ('it', fid, bb)
                 n = st.notes.get(ck, 0) + 1
-                if n > UNROLL:
+                hv[bb] = hv.get(bb, 0) + 1
+                if n > UNROLL or hv[bb] > HEAD_VISITS:
                     raise NeedJoin(key, bb)
                 st.notes[ck] = n
             for (s2, nb) in self.exec_block(body, fid, st, bb):
@@ -1765,7 +1812,12 @@ class Interp:
     def do_call(self, st: State, fid, t, key, bbi, body):
         c = t['callee']
         args = [self.operand(st, fid, a) for a in t['args']]
-        if c.get('local'):
+        if c.get('local') and c.get('decl') in FN_TRAIT_CALLS and len(args) == 2 and isinstance(self.closure_of(st, args[0]), VClosure):
+            # closure.call_once((a, b)) as written in library code: untuple the arguments, pass the environment as the body expects it
+            a1 = args[1]
+            elems = list(a1.elems) if isinstance(a1, VTuple) else ([] if a1 is UNIT else [a1])
+            res = self.call_closure(st, args[0], elems)
+        elif c.get('local'):
             res = self.call_local(st, c['key'], args)
         elif c.get('kind') == 'indirect':
             fv = self.operand(st, fid, t['func'])
@@ -1782,6 +1834,14 @@ class Interp:
             except Infeasible:
                 pass
         return out
+
+    def closure_of(self, st, v):
+        if isinstance(v, VRef):
+            try:
+                v = self.load(st, v.root, v.path)
+            except Exception:
+                return None
+        return v
 
     def call_value(self, st: State, fv: Val, args, t=None, body=None, bbi=None):
         """call through a function value (fn pointer set / closure)"""
